@@ -120,7 +120,7 @@ def leaf_kind(leaf):
     return ("expr",)
 
 
-def decide(gk, gref, var, domain, zones, expect, signed_free, rbits, exact=None):
+def decide(gk, gref, var, domain, zones, expect, signed_free, rbits, exact=None, okjudge=None):
     """gk: gated CNL kernel; gref: gated plain-operation reference; domain: ISet of admissible free values;
     zones: {'ok'|'high'|'low': (lo,hi) math interval or None}; expect: {'high': spec, 'low': spec} where spec is
     ('const', pattern) | ('throw', polarity) | ('trap', polarity) | ('plain',) | ('any',).
@@ -160,12 +160,27 @@ def decide(gk, gref, var, domain, zones, expect, signed_free, rbits, exact=None)
                     if leaf == rleaf:
                         continue
                     rk = leaf_kind(rleaf)
+                    if okjudge is not None and kind[0] == "expr":
+                        oj = okjudge(leaf, Q)
+                        if oj is not None:
+                            if oj[0] == "refuted":
+                                verdict = "refuted"
+                                details.append(("ok:wrong-value", "%s: %s" % (where, oj[1])))
+                            continue
                     if kind[0] in ("throw", "call"):
                         verdict = "refuted"
                         details.append(("ok:signal-where-no-overflow", "%s: no overflow is possible here but the kernel signals %s" % (where, kind)))
                     elif kind[0] == "const" and rk[0] == "const":
                         verdict = "refuted"
                         details.append(("ok:wrong-constant", "%s: returns the constant %d, the exact result is %d" % (where, kind[1], rk[1])))
+                    elif kind[0] == "const" and rk[0] == "expr" and exact is not None and Q.size() >= 2:
+                        # a constant on a stretch of operand values: right iff the (monotone) exact function is that constant at both ends of every run
+                        runs = Q.signed_intervals() if signed_free else list(Q.ivs)
+                        mask = (1 << rbits) - 1
+                        wrong = next((x for (lo_, hi_) in runs for x in (lo_, hi_) if (exact(x) & mask) != kind[1]), None)
+                        if wrong is not None:
+                            verdict = "refuted"
+                            details.append(("ok:wrong-constant", "%s: returns the constant %d; the exact result at operand %d is %d" % (where, kind[1], wrong, exact(wrong))))
                     elif kind[0] == "const" and rk[0] == "expr" and Q.size() == 1 and exact is not None:
                         # the tree says: for this single operand value the kernel returns a constant; the oracle knows the exact result there
                         x = (Q.signed_intervals() if signed_free else list(Q.ivs))[0][0]
